@@ -113,3 +113,100 @@ def shrink_mismatch(exe, r, gates=()):
     small = sh.shrink(r.sexp, still)
     res, bad, _ = run_suite(exe, [small], gates=gates)
     return bad[0] if bad else r
+
+
+# ------------------------------------------------------------------------------------------
+# metamorphic rewriting: if / else-if chains over one plain variable  ->  switch statement
+# ------------------------------------------------------------------------------------------
+
+_ALT_EQ = re.compile(r"^([A-Za-z_]\w*) == (\d+)$")
+_ALT_RANGE = re.compile(r"^([A-Za-z_]\w*) >= (\d+) && \1 <= (\d+)$")
+
+
+def _switch_pattern(cond):
+    """(scrutinee, case text) when `cond` is  v == K | v >= A && v <= B | v == K1 || v == K2 ...  else None"""
+    m = _ALT_RANGE.match(cond)
+    if m:
+        return m.group(1), "%s...%s" % (m.group(2), m.group(3))
+    parts = cond.split(" || ")
+    ms = [_ALT_EQ.match(p) for p in parts]
+    if all(ms) and len({m.group(1) for m in ms}) == 1:
+        return ms[0].group(1), " || ".join(m.group(2) for m in ms)
+    return None
+
+
+def _parse_block(lines, i):
+    """lines[i:] up to the line closing the current block -> (nodes, index of the closing line)"""
+    nodes = []
+    while i < len(lines):
+        t = lines[i].strip()
+        if t.startswith("}"):
+            return nodes, i
+        if t.endswith("{"):
+            body, j = _parse_block(lines, i + 1)
+            node = {"head": t, "body": body, "else": None}
+            while lines[j].strip() == "} else {":
+                eb, j = _parse_block(lines, j + 1)
+                node["else"] = eb
+            nodes.append(node)
+            i = j + 1
+        else:
+            nodes.append(t)
+            i += 1
+    return nodes, i
+
+
+def _emit(nodes, ind, out, stats):
+    p = "    " * ind
+    for n in nodes:
+        if isinstance(n, str):
+            out.append(p + n)
+            continue
+        m = re.match(r"^if \((.*)\) \{$", n["head"])
+        sp = _switch_pattern(m.group(1)) if m else None
+        if sp:
+            # collect the chain: else blocks that consist of exactly one if over the same variable
+            clauses, cur, final = [], n, None
+            while True:
+                mm = re.match(r"^if \((.*)\) \{$", cur["head"])
+                clauses.append((_switch_pattern(mm.group(1))[1], cur["body"]))
+                e = cur["else"]
+                if e is None:
+                    break
+                if len(e) == 1 and not isinstance(e[0], str):
+                    m2 = re.match(r"^if \((.*)\) \{$", e[0]["head"])
+                    s2 = _switch_pattern(m2.group(1)) if m2 else None
+                    if s2 and s2[0] == sp[0]:
+                        cur = e[0]
+                        continue
+                final = e
+                break
+            stats[0] += 1
+            out.append(p + "switch (%s) {" % sp[0])
+            for k, (cs, body) in enumerate(clauses):
+                out.append(p + "    " + ("} " if k else "") + "case (%s) {" % cs)
+                _emit(body, ind + 2, out, stats)
+            if final is not None:
+                out.append(p + "    } else {")
+                _emit(final, ind + 2, out, stats)
+            out.append(p + "    }")
+            out.append(p + "}")
+            continue
+        out.append(p + n["head"])
+        _emit(n["body"], ind + 1, out, stats)
+        if n["else"] is not None:
+            out.append(p + "} else {")
+            _emit(n["else"], ind + 1, out, stats)
+        out.append(p + "}")
+
+
+def ifchain_to_switch(source):
+    """rewrite every if / else-if chain whose conditions test one plain variable against literals (==, a closed range, or an
+    `||` of equalities) into `switch (v) { case (K) {...} case (A...B) {...} else {...} }`.  A switch runs the first clause
+    that matches and nothing else, which is what the chain means as long as the scrutinee is a plain variable.
+    Returns None when the program has no such chain."""
+    lines = [l for l in source.split("\n")]
+    nodes, _ = _parse_block(lines, 0)
+    out, stats = [], [0]
+    _emit(nodes, 0, out, stats)
+    return "\n".join(out) + "\n" if stats[0] else None
